@@ -302,6 +302,15 @@ class ContractMixin:
         if name == "confined":
             from . import pathmodel
             return mk_bool(pathmodel.confined(args[0].t))
+        if name in ("pname", "pparent", "pjoin"):
+            # the pure path algebra of pyvc/pathmodel.py as specification functions: p.name, p.parent, p / s
+            from . import pathmodel
+            U = pathmodel._ufs()
+            if name == "pname":
+                return mk_str(U["pname"](args[0].t))
+            if name == "pparent":
+                return Val(pathmodel.PATH, [U["pparent"](args[0].t)])
+            return Val(pathmodel.PATH, [U["pjoin"](args[0].t, args[1].t)])
         if name == "cast":
             return Val(TRef(z3.simplify(args[1].t).as_string()), args[0].terms)
         if name == "const":
